@@ -47,10 +47,13 @@ def run(ctx):
         if k == "STEPD":
             # an alarm level of exactly 0 switches that alarm off (no p-value is BELOW 0, not even one that underflows to 0.0 when the statistic passes ~8.3):
             # accuracy collapses after a long good stretch, again and again, and only the other alarm may speak
-            for j in range(4 if q else 16):
+            for j in range(8 if q else 32):
                 w = ctx.rng.choice([10, 20, 30])
-                pz = {"window_size": w, "alpha_drift": 0.0, "alpha_warning": ctx.rng.choice([0.05, 0.0])} if j % 2 == 0 else \
-                     {"window_size": w, "alpha_drift": 0.003, "alpha_warning": 0.0}
+                pz = [{"window_size": w, "alpha_drift": 0.0, "alpha_warning": ctx.rng.choice([0.05, 0.0])},
+                      {"window_size": w, "alpha_drift": 0.003, "alpha_warning": 0.0},
+                      # ... and levels at / below machine epsilon, which such a collapse DOES undercut (the p-value is exactly 0.0 then)
+                      {"window_size": w, "alpha_drift": 1e-17, "alpha_warning": 0.05},
+                      {"window_size": w, "alpha_drift": 1e-15, "alpha_warning": 1e-17}][j % 4]
                 seq = []
                 while len(seq) < 900:
                     seq += [0] * ctx.rng.randint(90, 200) + [1] * ctx.rng.randint(w, 2 * w) + [1 if ctx.rng.random() < 0.7 else 0 for _ in range(20)]
